@@ -914,6 +914,17 @@ func (fr *Frame) havocAll() {
 		if strings.HasPrefix(n, "RV_") || strings.HasPrefix(n, "recvd") || n == "held" {
 			continue
 		}
+		if strings.HasPrefix(n, "G_") {
+			local := false
+			for _, g := range c.P.Specs.Ghosts {
+				if g.Local && ghostCompName(g) == n {
+					local = true
+				}
+			}
+			if local {
+				continue
+			}
+		}
 		if n == "alloc" {
 			fr.growAlloc()
 			continue
@@ -1202,6 +1213,30 @@ func hardcoded(fr *Frame, f *ssa.Function, cc *ssa.CallCommon, site ssa.Instruct
 	case "errors.Is":
 		c.assumed["errors.Is is the reflexive-transitive unwrap relation errIs"] = true
 		return []Term{"(errIs " + args[0] + " " + args[1] + ")"}, true
+	case "encoding/json.Unmarshal", "(*encoding/json.Decoder).Decode":
+		// writes only through the target pointer (second argument)
+		var tgt ssa.Value
+		if len(cc.Args) >= 2 {
+			tgt = cc.Args[1]
+		}
+		if mi, ok := tgt.(*ssa.MakeInterface); ok {
+			tgt = mi.X
+		}
+		ok := false
+		if tgt != nil {
+			if pt, isPtr := tgt.Type().Underlying().(*types.Pointer); isPtr {
+				l := fr.locOf(tgt)
+				fr.growAlloc()
+				v := fr.freshOfType("decoded", pt.Elem())
+				fr.store(l, v)
+				ok = true
+			}
+		}
+		if !ok {
+			fr.havocAll()
+		}
+		c.assumed["encoding/json decoding writes only through its target pointer (decoded value arbitrary)"] = true
+		return []Term{fr.freshOfType("jsonerr", errT)}, true
 	case "(*sync.Mutex).Lock", "(*sync.RWMutex).Lock", "(*sync.RWMutex).RLock",
 		"(*sync.Mutex).Unlock", "(*sync.RWMutex).Unlock", "(*sync.RWMutex).RUnlock":
 		// lock state: 0 free, 1 write-held, 2 read-held (by this thread)
@@ -1444,6 +1479,12 @@ func runTop(c *Ctx, fn *ssa.Function, fc *FuncContract) (err error) {
 			c.assert(t)
 		}
 	}
+	if fc != nil {
+		// ghost initialisation (`entry set`): function-local ghost counters start from known values
+		for _, gs := range fc.EntrySets {
+			fr.applyEntrySet(gs)
+		}
+	}
 	fr.entry = fr.st.clone()
 	if fc != nil && fc.HasMod {
 		fr.declMods = map[string][]Term{}
@@ -1602,4 +1643,33 @@ func (fr *Frame) checkFrame(ret *ssa.Return) {
 		c.oblige(&Obligation{Name: name, Kind: "frame", Label: n, PC: fr.pc, Goal: goal, Where: c.P.pos(ret.Pos()) + " (" + fc.Where + ")",
 			Src: "component " + n + " changes outside the declared modifies set"})
 	}
+}
+
+func (fr *Frame) applyEntrySet(gs *GhostSet) {
+	c := fr.c
+	g, ok := c.P.Specs.Ghosts[gs.Name]
+	if !ok {
+		c.unsupported("entry set of unknown ghost " + gs.Name)
+		return
+	}
+	e := fr.env(fr.fn.Blocks[0])
+	cl := &Clause{Label: "entry-set-" + gs.Name, Src: gs.Src, Where: fr.fc.Where}
+	val, err := e.Value(gs.Val)
+	if err != nil {
+		fr.bindingFailure(cl, err)
+		return
+	}
+	var idx []Term
+	for _, a := range gs.Args {
+		tv, err := e.Value(a)
+		if err != nil {
+			fr.bindingFailure(cl, err)
+			return
+		}
+		idx = append(idx, tv.T)
+	}
+	s, _, _ := e.ghostSort(g)
+	name := ghostCompName(g)
+	cur := c.comp(fr.st, name, s)
+	c.setComp(fr.st, name, storeN(cur, idx, val.T))
 }
